@@ -75,7 +75,12 @@ func (wal *WAL) OnStart() error {
 	if err != nil {
 		return err
 	} else if size == 0 {
-		wal.writeHeight(1)
+		// Only a WAL that is empty altogether starts at height 1. An empty head behind rotated
+		// files (the process died right after a rotation) must not get a marker of height 1: it
+		// would sit behind the markers of later heights and mislead the search for them.
+		if wal.group.ReadGroupInfo().TotalSize == 0 {
+			wal.writeHeight(1)
+		}
 	} else if !endsWithNewline(wal.group.Head.Path, size) {
 		// The previous process died in the middle of a record. Terminate the fragment so that
 		// the records we append from now on start on their own line.
